@@ -111,6 +111,15 @@ check("C20", "TLC check of Group (order independence, import = add) + replay of 
       "DESIGN.md §4.6, §6 C20")
 
 
+check("C02", "TLC check of the observed identifier table and allocator (IdentTable/IdentGen) and of EmitSites + node parse of every artefact",
+      "TLC checks every identifier of the table observed through the hook (ids up to 2.1*10^5: identifier syntax, not "
+      "reserved/relied-upon/preserved, injective), the allocator machine (fresh w.r.t. enclosing scopes), and that every "
+      "class deliverable at a paste site is holdable by its embedding form; every artefact (object, bundle, wx bundle, "
+      "runtime, globals, scripts; normal and dev mode) of the EmitSites corpus, the WxmlSem families, the Defects "
+      "injections, the literal spellings and a size sweep is parsed by node in sloppy and strict mode.",
+      "DESIGN.md §4.5, §6 C02")
+
+
 def main():
     props = [json.loads(l) for l in open(os.path.join(HERE, "properties.jsonl"))]
     ids = [p["id"] for p in props]
